@@ -21,6 +21,8 @@ EXPLANATION = (
 EXPLANATION_ADDED = (' (R6) neither bounding_box nor to_mask nor any property of self they read remembers a result (memoising decorator or a store into self): the box is recomputed from the current parameters and operands.'
                      " R3's compound clause is decided by order types: with the operands' boxes given, the compound box is the smallest box containing both on all 676 orderings of their limits (empty boxes included), and it reads no other state of the compound.")
 EXPLANATION += EXPLANATION_ADDED
+EXPLANATION_ADDED2 = (' (R7) extents are computed in floating point: sizes keep the type they were given (PositiveScalar stores np.uint8(5) as it is) — the may-be-integer dataflow of C01.R9 over every bounding_box, with the size attributes as possibly-integer sources, finds no sum, difference, product or power in their own dtype.')
+EXPLANATION += EXPLANATION_ADDED2
 TRUSTED = ['np.floor/np.ceil/int on floats', 'ndarray.min()/max() are the extreme elements',
            'np.cos/np.sin of an angle Quantity']
 ASSUMPTIONS = ['real arithmetic', 'support function = tight axis-aligned extent of a convex shape']
@@ -305,6 +307,31 @@ def r6(ctx):
             ctx.ok(ci.name, 'bounding_box / to_mask and what they read are recomputed on every use')
 
 
+def r7(ctx):
+    """sizes keep the type they were given (PositiveScalar stores np.uint8(5) as it is) and scalar positions are Python
+    numbers, so `center.x - radius` in the radius' own dtype wraps around (3 - np.uint8(5) = 254: "ixmin must be <= ixmax")
+    — the may-be-integer dataflow of C01.R9 over every bounding_box, with the size attributes as possibly-integer sources:
+    no sum, difference, product or power of such values unless an operand is floating."""
+    from .c01 import _DtypeLint
+    m = ctx.model
+    n = 0
+    for ci in m.region_classes('pixel'):
+        f = ci.methods.get('bounding_box')
+        if f is None:
+            continue
+        n += 1
+        lint = _DtypeLint(ctx, m, sums=True, int_descr_kinds=('PositiveScalar',))
+        lint.fn(f, ['scalar'])
+        if lint.problems:
+            fi, node, text = lint.problems[0]
+            ctx.bad(f'{ci.name}.bounding_box', 'fixed-width-size',
+                    f'{text}: a size given as a fixed-width numpy integer makes the extent wrap around; convert it to float '
+                    'first', fi.loc(node))
+        else:
+            ctx.ok(f'{ci.name}.bounding_box', 'extents are computed in floating point')
+    ctx.need(n >= 6, 'bounding_box properties', f'only {n} found')
+
+
 RULES = [
     RuleDef('R1', 'float extents are the support functions of each shape', r1, 6),
     RuleDef('R2', 'from_float = floor(min+1/2), ceil(max+1/2); extent = pixel edges', r2, 2),
@@ -312,4 +339,5 @@ RULES = [
     RuleDef('R4', 'mask carries self.bounding_box', r4, 4),
     RuleDef('R5', 'rectangle corners use the same rotation frame', r5, 2, tier='thorough'),
     RuleDef('R6', 'no remembered box: bounding_box / to_mask recompute from current parameters and operands', r6, 12),
+    RuleDef('R7', 'extents are computed in floating point (sizes given as fixed-width integers cannot wrap)', r7, 6),
 ]
